@@ -17,7 +17,7 @@ type OutPt2 struct {
 	prev     *OutPt2
 	pt       Point64
 	ownerIdx int
-	edge     []*OutPt2
+	edge     *[]*OutPt2
 }
 
 func NewOutPt2(pt Point64) *OutPt2 {
@@ -499,25 +499,25 @@ func (r *RectClip64) checkEdges() {
 	}
 }
 
-func (r *RectClip64) tidyEdgePair(idx int, cw, ccw []*OutPt2) {
-	if len(ccw) == 0 {
+func (r *RectClip64) tidyEdgePair(idx int, cw, ccw *[]*OutPt2) {
+	if len(*ccw) == 0 {
 		return
 	}
 	isHorz := idx == 1 || idx == 3
 	cwIsTowardLarger := idx == 1 || idx == 2
 	i, j := 0, 0
 
-	for i < len(cw) {
-		p1 := cw[i]
+	for i < len(*cw) {
+		p1 := (*cw)[i]
 		if p1 == nil || p1.next == p1.prev {
-			cw[i] = nil
+			(*cw)[i] = nil
 			i++
 			j = 0
 			continue
 		}
 
-		jLim := len(ccw)
-		for j < jLim && (ccw[j] == nil || ccw[j].next == ccw[j].prev) {
+		jLim := len(*ccw)
+		for j < jLim && ((*ccw)[j] == nil || (*ccw)[j].next == (*ccw)[j].prev) {
 			j++
 		}
 		if j == jLim {
@@ -529,15 +529,15 @@ func (r *RectClip64) tidyEdgePair(idx int, cw, ccw []*OutPt2) {
 		var p2, p1a, p2a *OutPt2
 
 		if cwIsTowardLarger {
-			p1 = cw[i].prev
-			p1a = cw[i]
-			p2 = ccw[j]
-			p2a = ccw[j].prev
+			p1 = (*cw)[i].prev
+			p1a = (*cw)[i]
+			p2 = (*ccw)[j]
+			p2a = (*ccw)[j].prev
 		} else {
-			p1 = cw[i]
-			p1a = cw[i].prev
-			p2 = ccw[j].prev
-			p2a = ccw[j]
+			p1 = (*cw)[i]
+			p1a = (*cw)[i].prev
+			p2 = (*ccw)[j].prev
+			p2a = (*ccw)[j]
 		}
 
 		if (isHorz && !hasHorzOverlap(p1.pt, p1a.pt, p2.pt, p2a.pt)) ||
@@ -546,7 +546,7 @@ func (r *RectClip64) tidyEdgePair(idx int, cw, ccw []*OutPt2) {
 			continue
 		}
 
-		isRejoining := cw[i].ownerIdx != ccw[j].ownerIdx
+		isRejoining := (*cw)[i].ownerIdx != (*ccw)[j].ownerIdx
 
 		if isRejoining {
 			r.results[p2.ownerIdx] = nil
@@ -594,24 +594,24 @@ func (r *RectClip64) tidyEdgePair(idx int, cw, ccw []*OutPt2) {
 
 		if op.next == op.prev || (op.pt == op.prev.pt) {
 			if op2IsLarger == cwIsTowardLarger {
-				cw[i] = op2
-				ccw[j] = nil
+				(*cw)[i] = op2
+				(*ccw)[j] = nil
 				j++
 			} else {
-				ccw[j] = op2
-				cw[i] = nil
+				(*ccw)[j] = op2
+				(*cw)[i] = nil
 				i++
 			}
 			continue
 		}
 		if op2.next == op2.prev || (op2.pt == op2.prev.pt) {
 			if opIsLarger == cwIsTowardLarger {
-				cw[i] = op
-				ccw[j] = nil
+				(*cw)[i] = op
+				(*ccw)[j] = nil
 				j++
 			} else {
-				ccw[j] = op
-				cw[i] = nil
+				(*ccw)[j] = op
+				(*cw)[i] = nil
 				i++
 			}
 			continue
@@ -619,29 +619,29 @@ func (r *RectClip64) tidyEdgePair(idx int, cw, ccw []*OutPt2) {
 
 		if opIsLarger == op2IsLarger {
 			if opIsLarger == cwIsTowardLarger {
-				cw[i] = op
+				(*cw)[i] = op
 				uncoupleEdge(op2)
-				addToEdge(&cw, op2)
-				ccw[j] = nil
+				addToEdge(cw, op2)
+				(*ccw)[j] = nil
 				j++
 			} else {
-				cw[i] = nil
+				(*cw)[i] = nil
 				i++
-				ccw[j] = op2
+				(*ccw)[j] = op2
 				uncoupleEdge(op)
-				addToEdge(&ccw, op)
+				addToEdge(ccw, op)
 				j = 0
 			}
 		} else {
 			if opIsLarger == cwIsTowardLarger {
-				cw[i] = op
+				(*cw)[i] = op
 			} else {
-				ccw[j] = op
+				(*ccw)[j] = op
 			}
 			if op2IsLarger == cwIsTowardLarger {
-				cw[i] = op2
+				(*cw)[i] = op2
 			} else {
-				ccw[j] = op2
+				(*ccw)[j] = op2
 			}
 		}
 	}
@@ -662,7 +662,7 @@ func addToEdge(edge *[]*OutPt2, op *OutPt2) {
 	if op.edge != nil {
 		return
 	}
-	op.edge = *edge
+	op.edge = edge
 	*edge = append(*edge, op)
 }
 
@@ -670,11 +670,11 @@ func uncoupleEdge(op *OutPt2) {
 	if op.edge == nil {
 		return
 	}
-	for i, op2 := range op.edge {
-		if op2 != op {
-			continue
+	for i, op2 := range *op.edge {
+		if op2 == op {
+			(*op.edge)[i] = nil
+			break
 		}
-		op.edge[i] = nil
 	}
 	op.edge = nil
 }
